@@ -416,6 +416,38 @@ def slow_consumer(chk):
         chk.coverage["traces_validated_against_impl"] += 1
 
 
+def task_removes_its_output(chk):
+    """"every recorded version's output directory exists": an experiment that exits 0 after it has removed (or replaced by
+    a file) its own output directory has produced nothing that can be recorded.  (D38: without args / options nothing
+    touched the directory after the task, and a version was recorded whose directory does not exist -- dependents,
+    `cond where` and `cond archive` were then handed a path to nothing.)"""
+    import implrun
+
+    variants = {"removed": "rm -rf $COND_OUT; echo removed", "replaced by a file": "rm -rf $COND_OUT; echo x > $COND_OUT",
+                "removed, sequential dependents": "rm -rf $COND_OUT"}
+    for name, script in variants.items():
+        cond = 'run_experiment(name="e", run="%s")\nrun_command(name="after", run="ls $COND_DEPS > $COND_OUT/seen", deps=[":e"])\n' % script
+        root = implrun.make_project({"COND": cond})
+        res = implrun.run_cond(["run", "//:after"], root, timeout=60)
+        chk.coverage["evaluations"] += 1
+        chk.count("own output removed", name)
+        rows = implrun.index_rows(root)
+        text = implrun.strip_ansi(res.out + res.err)
+        problems = []
+        for tid, ts, _h, _u in rows:
+            d = os.path.join(root, "cond-out", "e.task.%d" % ts)
+            if not os.path.isdir(d):
+                problems.append("version %d of %s is recorded but %s is not a directory" % (ts, tid, os.path.relpath(d, root)))
+        if "Traceback" in text:
+            problems.append("the run ended in a traceback: %r" % text.strip().splitlines()[-1][:200])
+        for msg in problems:
+            chk.violation("impl-violation", "an experiment that exits 0 after its output directory was %s: %s" % (name.split(",")[0], msg),
+                          {"input": {"part": "own-output-removed", "variant": name, "cond": cond, "argv": ["run", "//:after"]},
+                           "impl_observation": {"exit": res.code, "rows": [list(r) for r in rows], "output": text[-600:]}, "oracle_verdict": msg}, match_key={"part": "own-output-removed"}, size=1)
+        if not problems:
+            chk.coverage["traces_validated_against_impl"] += 1
+
+
 def background_writer(chk, prop="C06"):
     """The experiment's command exits 0 at once but leaves a background job that still holds its stdout and writes to it
     1.5 s later.  Whenever the version's row is visible, the directory it names must be FINISHED: from that moment on
@@ -496,6 +528,7 @@ def run(tier, seed, replay=None):
     head_states(chk)
     durability_assumption(chk)
     slow_consumer(chk)
+    task_removes_its_output(chk)
     background_writer(chk, "C06")
     scs = scenarios(tier, chk.rng)
     total_runs = 0
